@@ -150,3 +150,24 @@ impl notify::EventHandler for NotifyEventHandler {
         }
     }
 }
+
+/// Verification hook: `id_of_path` with a fresh builder.
+#[cfg(assets_manager_verif)]
+pub(crate) fn verif_id_of_path(root: &Path, path: &Path) -> Option<OwnedDirEntry> {
+    id_of_path(&mut IdBuilder::default(), root, path)
+}
+
+/// Verification hook: the notify event handler of the built-in watcher, bound to the given
+/// roots and event sender (and to no actual watcher).
+#[cfg(assets_manager_verif)]
+pub(crate) fn verif_make_handler(
+    roots: Vec<PathBuf>,
+    events: super::EventSender,
+) -> impl notify::EventHandler {
+    NotifyEventHandler {
+        roots,
+        events,
+        id_builder: IdBuilder::default(),
+        watcher: None,
+    }
+}
